@@ -11,7 +11,19 @@ from ..srcmodel import FuncInfo, PropInfo
 from . import common
 
 
+# set by the engine: f -> True if f is a private helper that the canonical program has written out at every one of its call sites (dead code there: it is decided
+# as part of its callers, never on its own)
+ABSORBED = [None]
+
+
 def visible_functions(ctx, with_shadowed=False):
+    fs = _visible_functions(ctx, with_shadowed)
+    if ABSORBED[0] is not None:
+        fs = [f for f in fs if not (hasattr(f, "node") and ABSORBED[0](f))]
+    return fs
+
+
+def _visible_functions(ctx, with_shadowed=False):
     """Every function an instance of ctx can execute: first definition in the MRO per name, getters and setters included.
     with_shadowed: also the overridden definitions further up the MRO (reachable only through super()/explicit calls)."""
     out = []
